@@ -41,7 +41,9 @@ def base(draw, tier):
     b.update(key=draw(keys), pmat=draw(st.sampled_from(["none", "auto", "centring"])),
              method=draw(st.sampled_from(["wang", "gonze"])), compact=draw(st.booleans()),
              factor=draw(st.sampled_from(FACTORS)), model=draw(st.sampled_from(["springs", "dense"])),
-             nscale=draw(st.sampled_from([1e-3, 1.0, 1.0, 1e3])), naxis=draw(st.sampled_from([-1, -1, -1, 0, 1, 2])))
+             nscale=draw(st.sampled_from([1e-3, 1.0, 1.0, 1e3])), naxis=draw(st.sampled_from([-1, -1, -1, 0, 1, 2])),
+             blayout=draw(st.sampled_from(["array", "array", "list", "fortran", "transposed", "strided", "readonly"])),
+             elayout=draw(st.sampled_from(["array", "array", "list", "fortran", "transposed", "readonly"])))
     return b
 
 
@@ -71,7 +73,10 @@ def _setup(spec, zero_born=False):
         return None, Out(nontrivial=False, classes=["skipped"])
     if zero_born:
         Z = Z * 0.0
-    ph.nac_params = {"born": Z.copy(), "dielectric": eps.copy(), "factor": spec["factor"], "method": spec["method"]}
+    from vlib.case import present
+
+    ph.nac_params = {"born": present(Z, spec.get("blayout", "array")), "dielectric": present(eps, spec.get("elayout", "array")),
+                     "factor": spec["factor"], "method": spec["method"]}
     prim = ph.primitive
     # natural magnitude of dynamical-matrix entries: short-range part + dipole part
     dscale = np.abs(fc).max() / prim.masses.min() + \
@@ -134,10 +139,33 @@ def run_gamma(spec):
     e4 = np.abs(_D(ph, [0, 0, 0]) - D0).max() / sc
     if e4 > 1e-9:
         return Out(ok=False, msg="Gamma without direction differs from the uncorrected matrix: %.3e" % e4)
+    # the deprecated-but-supported entry point takes the same direction
+    import warnings
+
+    with warnings.catch_warnings():
+        warnings.simplefilter("ignore")
+        dm.set_dynamical_matrix([0, 0, 0], q_direction=n)
+    e5 = np.abs(dm.dynamical_matrix - Dn).max() / sc
+    if e5 > 1e-11:
+        return Out(ok=False, msg="DynamicalMatrixNAC.set_dynamical_matrix(q, q_direction) differs from run(q, q_direction): %.3e" % e5)
+    # the zone centre APPROACHED along n: at |q| = 1e-4 ... 1e-3 1/Angstrom the correction must already be the limit up to O(|q| r)
+    if np.abs(ref).max() > 1e-6 * sc:
+        qlen = 10 ** rng.uniform(-4.3, -3.3)
+        q_small = prim.cell @ (nc / np.linalg.norm(nc) * qlen)  # reduced coordinates of the Cartesian vector qlen * n_hat
+        dd = _D(ph, q_small) - _D(ph0, q_small)
+        # finite-q remainder: O(2 pi |q| r) of the overall dipole scale (r up to the supercell size), whatever the size of the
+        # limit along this particular direction
+        rmax = float(np.linalg.norm(ph.supercell.cell, axis=1).max())
+        dip = 4 * np.pi / V * f * np.abs(Z).max() ** 2 / np.linalg.eigvalsh(eps).min() / m.min()
+        e6 = np.abs(dd - ref).max() / np.abs(ref).max()
+        if np.abs(dd - ref).max() > 0.02 * np.abs(ref).max() + 2 * 2 * np.pi * qlen * rmax * dip:
+            return Out(ok=False, info={"err": e6}, msg="approaching the zone centre along n (|q| = %.2e 1/A, %s): correction differs from its limit by %.3e of the "
+                       "limit's size" % (qlen, spec["method"], e6))
     aniso = np.abs(eps - np.eye(3) * np.trace(eps) / 3).max() > 1e-6 or np.abs(Z - np.eye(3)[None] * np.trace(Z, axis1=1, axis2=2)[:, None, None] / 3).max() > 1e-6
     return Out(ok=True, nontrivial=bool(aniso) and spec["naxis"] < 0 and np.abs(ref).max() > 1e-12,
-               classes=[spec["method"], "compact" if spec["compact"] else "full", "nscale:%g" % spec["nscale"], spec["model"]],
-               info={"err": max(e1, e2, e3, e4)})
+               classes=[spec["method"], "compact" if spec["compact"] else "full", "nscale:%g" % spec["nscale"], spec["model"],
+                        "born:" + spec.get("blayout", "array"), "eps:" + spec.get("elayout", "array")],
+               info={"err": max(e1, e2, e3, e4, e5)})
 
 
 def bz_reduce(q, B):
@@ -206,7 +234,10 @@ def run_zero(spec):
             np.linalg.eigvalsh(eps1).min() / ph.primitive.masses.min()
         _D(ph, [0.1, 0.2, 0.3])
         _D(ph, [0, 0, 0], [1, 0, 0])
-        ph.nac_params = {"born": Z.copy(), "dielectric": eps.copy(), "factor": spec["factor"], "method": spec["method"]}
+        from vlib.case import present
+
+    ph.nac_params = {"born": present(Z, spec.get("blayout", "array")), "dielectric": present(eps, spec.get("elayout", "array")),
+                     "factor": spec["factor"], "method": spec["method"]}
     q = rng.normal(size=3)
     n = _direction(spec, rng)
     worst = 0
